@@ -92,10 +92,49 @@ def run(tier, seed, prop="C02", want_pred=None, forms=None):
         cases = corpus_cases(prop) + family(rng, tier, forms_secret=[f for f in SECRET_FORMS if f in forms], forms_dh=[f for f in DH_FORMS if f in forms], want_pred=want_pred) + large_cases(rng, want_pred)
         if streamfam:
             cases += streamfam.tamper_cases(rng, tier, c17=True)
-    lines = assign_ids(cases)
+    errcases = []
+    if prop == "C17":
+        # the ERROR VALUE is a caller-visible output too: its text must not describe the rejected data.  For each form and length the
+        # Display text of the error is collected over corruptions of every tag byte, body bytes, the nonce and the key; all must be equal.
+        for n in (0, 1, 20, 33):
+            I = Inst(rng, n, style=0)
+            def muts(ct, over):
+                out = []
+                for pos in list(range(0, over)) + ([over, len(ct) - 1] if len(ct) > over else []):
+                    for bit in (0x01, 0x80):
+                        t = bytearray(ct); t[pos] ^= bit; out.append(bytes(t))
+                for _ in range(4):
+                    t = bytearray(ct); t[over - 16:over] = rbytes(rng, 16); out.append(bytes(t))
+                return out
+            for j, ct in enumerate(muts(I.sb, 16)):
+                errcases.append(Case("errtext_secretbox %s %s %s" % (hx(I.key), hx(I.nonce), hx(ct)), cls="errtext/secretbox", meta={"errgroup": ("secretbox", n)}))
+            errcases.append(Case("errtext_secretbox %s %s %s" % (hx(rbytes(rng, 32)), hx(I.nonce), hx(I.sb)), cls="errtext/secretbox", meta={"errgroup": ("secretbox", n)}))
+            for j, ct in enumerate(muts(I.bx, 16)):
+                errcases.append(Case("errtext_box %s %s %s %s" % (hx(I.spk), hx(I.rsk), hx(I.nonce), hx(ct)), cls="errtext/box", meta={"errgroup": ("box", n)}))
+            for j, ct in enumerate(muts(I.sealed, 48)):
+                errcases.append(Case("errtext_seal %s %s %s" % (hx(I.rpk), hx(I.rsk), hx(ct)), cls="errtext/seal", meta={"errgroup": ("seal", n)}))
+    lines = assign_ids(cases + errcases)
     impl = run_engine(runner, lines)
-    model = run_engine(driver_path(), lines) if lean["build_ok"] else {}
+    model = run_engine(driver_path(), lines[:len(cases)]) if lean["build_ok"] else {}
     standard_compare(res, cases, impl, model, check_sodium=True)
+    groups = {}
+    for c in errcases:
+        a = impl.get(c.id, ["missing"])[0]
+        res.evaluations += 1
+        res.count(c.cls)
+        if not a.startswith("ok "):
+            res.violations.append({"kind": "impl-" + a.split(" ")[0], "line": c.line, "answers": {"impl": a[:200]}, "why": "error-text probe failed"})
+            continue
+        txt = bytes.fromhex(a[3:]).decode("utf-8", "replace")
+        if "=OK" in txt:
+            res.violations.append({"kind": "predicate", "line": c.line, "answers": {"impl": txt[:300]}, "why": "a corrupted input was accepted by one opening form"})
+            continue
+        groups.setdefault(c.meta["errgroup"], {}).setdefault(txt, c)
+    for g, texts in groups.items():
+        if len(texts) > 1:
+            (t1, c1), (t2, c2) = list(texts.items())[:2]
+            res.violations.append({"kind": "predicate", "line": c2.line, "answers": {"error text": t2[:300], "error text of another rejected input of the same length": t1[:300], "other_request": c1.line},
+                                   "why": "the error returned by a failed open depends on the rejected data (%d different texts for %s, message length %d)" % (len(texts), g[0], g[1])})
     if tier == "thorough" and lean["build_ok"]:
         okc, out = leanchecker(prop)
         res.extra["leanchecker"] = "ok" if okc else out
